@@ -152,11 +152,24 @@ def render_doc(d):
 def check_integration(src, rules, ml, stat=None):
     lines = [mkline(r) for r in rules]
     case = {'mode': 'tex2txt', 'src': src, 'rules': [list(map(list, r[:2])) + list(r[2:]) for r in rules], 'ml': ml}
-    kw = dict(lang='en-GB', pack='*')
+    # option mixes derived from the case: main language given or left at its default; the rules passed as a
+    # list or read from a file by read_replacements(), whose last line may lack the line end (seeded changes C13-G/H)
+    h = len(src) + 3 * len(lines) + sum(len(x) for x in lines)
+    main = 'en-GB' if h % 3 else ''
+    kw = dict(lang=main or None, pack='*')
+    case['lang'] = main or None
     try:
         with watchdog(20):
+            rl = lines
+            if h % 2:
+                import os
+                fn = os.path.join(sut.scratch_dir(), 'zz-repl-%d.txt' % os.getpid())
+                with open(fn, 'w', encoding='utf-8', newline='') as f:
+                    f.write(''.join(lines)[:-1] if h % 4 == 1 else ''.join(lines))
+                rl = sut._t2t.read_replacements(fn, 'utf-8')
+                case['rules_from_file'] = 'no final line end' if h % 4 == 1 else 'final line end'
             r0, e0 = sut.tex2txt(src, ml=ml, **kw)
-            r1, e1 = sut.tex2txt(src, ml=ml, repl=lines, **kw)
+            r1, e1 = sut.tex2txt(src, ml=ml, repl=rl, **kw)
     except Exception as e:
         raise Violation('exception:' + sut_frame(e), case, repr(e))
     if not ml:
@@ -170,7 +183,7 @@ def check_integration(src, rules, ml, stat=None):
         if len(r0[lang]) != len(r1[lang]):
             raise Violation('tex2txt-repl-parts-differ', case, {'without': r0, 'actual': r1})
         for p0, p1 in zip(r0[lang], r1[lang]):
-            if lang == 'en-GB':
+            if lang != 'de-DE':        # the main language, under whatever key it is filed
                 et, ep = ref_all(p0[0], list(p0[1]), rules, stat)
             else:
                 et, ep = p0[0], list(p0[1])
